@@ -35,6 +35,12 @@ TARGETS = [
     dict(name="wrath_encrypt_server_header", file="src/wrath_header/encrypt.rs", fn="encrypt_server_header", kind="method",
          fields=[("encrypt", "opaque"), ("server_header", ("arr", "u8"))], helpers=[], free_helpers=["set_large_header"],
          externs={"self.encrypt": ("ext_apply", "self.encrypt")}, ret=("arr", "u8"), consts={"SERVER_HEADER_MINIMUM_LENGTH": ("wrath_server_header_min_length", "u8")}),
+    dict(name="pin_to_bytes", file="src/pin.rs", fn="pin_to_bytes", kind="function", ret=("arr", "u8"),
+         consts={"MAX_PIN_LENGTH": ("max_pin_length", "u8")}),
+    dict(name="matrix_get_number_at_coordinates", file="src/matrix_card.rs", fn="get_number_at_coordinates", kind="method",
+         fields=[("digit_count", "u8"), ("width", "u8"), ("height", "u8"), ("data", ("arr", "u8"))], helpers=[], ret=("arr", "u8"), readonly=True),
+    dict(name="matrix_get_matrix_coordinates", file="src/matrix_card.rs", fn="get_matrix_coordinates", kind="method",
+         fields=[("challenge_count", "u8"), ("height", "u8"), ("width", "u8"), ("coordinates", ("arr", "u8"))], helpers=[], ret="option (N * N)", readonly=True),
     dict(name="skey_as_equal_slice", file="src/key.rs", fn="as_equal_slice", kind="method",
          fields=[("key", ("arr", "u8"))], helpers=[], ret=("arr", "u8"), readonly=True),
 ]
@@ -132,10 +138,32 @@ def method(t, src):
         exts = sorted(set(v[0] for v in t.get("externs", {}).values()))
         tys = "{ST : Type} " + " ".join("(%s : ST -> list N -> option (ST * list N))" % x for x in exts) + " " + tys
     sty = "(" + " * ".join(cty(ty) for _, ty in t["fields"]) + ")"
-    rty = "list N" if isinstance(t.get("ret"), tuple) else ("N" if t.get("ret") else "unit")
+    rty = "list N" if isinstance(t.get("ret"), tuple) else (t["ret"] if isinstance(t.get("ret"), str) and t["ret"] not in BITS else ("N" if t.get("ret") else "unit"))
     fuel = "(fuel : nat) " if g.uses_fuel else ""
     head = "Definition tr_%s %s%s %s: option %s :=\n  %s." % (t["name"], fuel, tys, "".join("(%s : N) " % a for a in args), ("(%s)" % rty) if ro else "(%s * %s)" % (sty, rty), text)
     note = "(* %s fn %s(&mut self%s); fields %s; helpers inlined: %s *)" % (t["file"], t["fn"], "".join(", " + a for a in args), " ".join(fields), " ".join(helpers) or "-")
+    return note + "\n" + head
+
+def function(t, src):
+    """free function: parameters by value or &mut array; result = (mutable array params.., tail value)"""
+    ps, ret, body = free_fn(src, t["fn"])
+    env, names, muts = {}, [], []
+    for name, ty in ps:
+        pt, mut = param_type(ty)
+        env[name] = ("v_" + name, pt); names.append(("v_" + name, pt))
+        if mut and isinstance(pt, tuple): muts.append(name)
+    consts = dict(CONSTS); consts.update(t.get("consts", {}))
+    g = Gen(env, consts)
+    blk = Parser(tokenize(body)).block()
+    g.usize_vars = usize_variables(blk)
+    def final(tail):
+        if tail is None: raise Untranslatable("function without a result")
+        return "Some %s" % tail[0]
+    text = g.stmts(blk, final)
+    fuel = "(fuel : nat) " if g.uses_fuel else ""
+    rty = "list N" if isinstance(t.get("ret"), tuple) else "N"
+    head = "Definition tr_%s %s%s: option (%s) :=\n  %s." % (t["name"], fuel, "".join("(%s : %s) " % (n_, "list N" if isinstance(ty_, tuple) else "N") for n_, ty_ in names), rty, text)
+    note = "(* %s fn %s(%s) *)" % (t["file"], t["fn"], ", ".join(n_ for n_, _ in names))
     return note + "\n" + head
 
 def main():
@@ -145,7 +173,7 @@ def main():
     for t in TARGETS:
         try:
             src = strip_comments(open(os.path.join(REPO, t["file"])).read())
-            out.append((slice_loop if t["kind"] == "slice_loop" else method)(t, src))
+            out.append({"slice_loop": slice_loop, "method": method, "function": function}[t["kind"]](t, src))
         except (Untranslatable, OSError) as e:
             failed.append((t["name"], str(e)))
             out.append("(* %s: NOT TRANSLATED: %s *)" % (t["name"], str(e).replace("*)", "* )")))
